@@ -9,9 +9,10 @@
 (*                                                                         *)
 (* A message body is a SEQUENCE of parts (tagged records):                 *)
 (*   [k|->"text",  s]                 raw text                             *)
-(*   [k|->"print", e]                 print placeholder, e = SoyExpr tree  *)
-(*   [k|->"tag",   s]                 html-tag placeholder, s = tag text   *)
-(*   [k|->"plural", e, cases, dflt]   cases: Seq([v, body]), dflt: body    *)
+(*   [k|->"print", e, b]              print placeholder, e = SoyExpr tree  *)
+(*   [k|->"tag",   s, b]              html-tag placeholder, s = tag text   *)
+(*   [k|->"plural", e, cases, dflt, b] cases: Seq([v, body]), dflt: body   *)
+(* (b = the base name, derived from e / s by the constructors below)       *)
 (* A plural, if present, is the sole child; case bodies hold no plural.    *)
 (* A message is [body, meaning, desc].                                     *)
 (*                                                                         *)
@@ -143,16 +144,16 @@ MsgTagBase(s) ==
   ToUpperUnderscore((IF MsgTagIsEnd(s) THEN "END_" ELSE IF MsgTagIsSelf(s) THEN "" ELSE "START_")
                     \o MsgPrettyTag(MsgTagName(s)))
 
+\* Part constructors.  A placeholder part carries its base name b (derived
+\* once, when the part is built; PartBase reads it back).
 MText(s)  == [k |-> "text", s |-> s]
-MPrint(e) == [k |-> "print", e |-> e]
-MTag(s)   == [k |-> "tag", s |-> s]
-MPlural(e, cases, dflt) == [k |-> "plural", e |-> e, cases |-> cases, dflt |-> dflt]
+MPrint(e) == [k |-> "print", e |-> e, b |-> MsgExprBase(e, "XXX")]
+MTag(s)   == [k |-> "tag", s |-> s, b |-> MsgTagBase(s)]
+MPlural(e, cases, dflt) ==
+  [k |-> "plural", e |-> e, cases |-> cases, dflt |-> dflt, b |-> MsgExprBase(e, "NUM")]
 MCase(v, body) == [v |-> v, body |-> body]
 
-PartBase(p) ==
-  CASE p.k = "print"  -> MsgExprBase(p.e, "XXX")
-    [] p.k = "tag"    -> MsgTagBase(p.s)
-    [] p.k = "plural" -> MsgExprBase(p.e, "NUM")
+PartBase(p) == p.b
 
 (***************************************************************************)
 (* The nodes that get a name, in visiting order: the top-level             *)
@@ -335,11 +336,15 @@ MsgFamPlural(n) ==
 
 MsgPick(pool, ix) == [i \in 1..Len(ix) |-> pool[ix[i]]]
 
+\* (the subjects' base names are tabulated once)
+MsgPluralSubjectBases == [i \in 1..Len(MsgPluralSubjects) |-> MsgExprBase(MsgPluralSubjects[i], "NUM")]
+
 MsgFamBody(c) ==
   IF c.kind = "flat" THEN MsgPick(PoolC10, c.ix)
-  ELSE << MPlural(MsgPluralSubjects[c.subj],
-                  [i \in 1..Len(c.cb) |-> MCase(MsgCaseSets[c.cs][i], MsgPick(MsgInnerPool, c.cb[i]))],
-                  MsgPick(MsgInnerPool, c.db)) >>
+  ELSE << [k |-> "plural", e |-> MsgPluralSubjects[c.subj],
+           cases |-> [i \in 1..Len(c.cb) |-> MCase(MsgCaseSets[c.cs][i], MsgPick(MsgInnerPool, c.cb[i]))],
+           dflt |-> MsgPick(MsgInnerPool, c.db),
+           b |-> MsgPluralSubjectBases[c.subj]] >>
 
 RECURSIVE MsgIxStr(_)
 MsgIxStr(ix) == IF ix = <<>> THEN "" ELSE ToString(Head(ix)) \o "." \o MsgIxStr(Tail(ix))
